@@ -518,6 +518,42 @@ fn build_registry() -> Registry {
         s.marks = marks;
         seeds.push(s);
     }
+    {
+        // entries whose tables are physically there and promise far more than the file holds: a standard entry with
+        // 4 000 block descriptors of 65 535 bytes each and a texture entry with 13 mips of 256 MiB each, without the data
+        let mut std_entry = W::new();
+        let n = 4000u32;
+        let hsize = ((24 + 8 * n as usize + 127) / 128 * 128) as u32;
+        std_entry.u32(hsize).i32(2).u32(n * 65535).u32(n * 512).u32(n * 512).u32(n);
+        for i in 0..n {
+            std_entry.u32(i * 65664).u16(0xFFFF).u16(0xFFFF);
+        }
+        std_entry.pad_to(hsize as usize);
+        let mut tex_entry = W::new();
+        let mips = 13u32;
+        let nblocks = 13u32 * 16;
+        let thsize = ((24 + 20 * mips as usize + 2 * nblocks as usize + 127) / 128 * 128) as u32;
+        tex_entry.u32(thsize).i32(4).u32(mips << 28).u32(0).u32(0).u32(mips);
+        for i in 0..mips {
+            tex_entry.u32(80 + i * (1 << 20)).u32(1 << 20).u32(1 << 28).u32(i * 16).u32(16);
+        }
+        for _ in 0..nblocks {
+            tex_entry.i16(0x7F80);
+        }
+        tex_entry.pad_to(thsize as usize);
+        tex_entry.fill(80, 0x11);
+        let o1 = 2048u64;
+        let o2 = o1 + std_entry.len() as u64;
+        let dat = sqpack::dat_file(0, -1, &[(o1, std_entry.b), (o2, tex_entry.b)], 0);
+        let mut offs: Vec<u8> = vec![];
+        for o in [o1, o2] {
+            offs.extend_from_slice(&o.to_le_bytes());
+        }
+        let mut s = SeedFile::new("dat", "tables-without-data", dat.clone()).magic(8);
+        s.args = vec![dat, offs, vec![0]];
+        s.marks = vec![o1 as u32, o1 as u32 + 8, o1 as u32 + 20, o1 as u32 + 24, o2 as u32, o2 as u32 + 8, o2 as u32 + 20, o2 as u32 + 24];
+        seeds.push(s);
+    }
     Registry::new(seeds)
 }
 
@@ -920,7 +956,7 @@ fn post(_: &Ctx) {
 pub fn property() -> Property {
     Property {
         id: "C18",
-        rule: "cases = (entry point, valid seed asset or archive, corruption) executed in an isolated worker process. Entry points: from_existing of model, material, shader package (+find_node for every listed and some absent selectors), texture, EXH, EXD (+read_row for every indexed id, page ids and absent ids; header and page corrupted separately), skeleton, deformer (+get_deform_matrices for all ordered pairs of body ids), scaling table, terrain, staining template, dictionary, layer group (empty, fixture, and one with instance objects), effect, uld/sgb/scd/hwc/iwc/tmb/skp/schd/phyb/pap headers, SqPack database; SqPackIndex::from_existing+exists/find_entry, SqPackData::read_from_offset at entry and stray offsets, GameData::from_existing/exists/find_offset/extract on a synthetic installation. Seeds: output of the C05/C06/C13/C14/C16 generators for fixed internal seeds, the repository's sample model and layer group, hand-built files for the remaining formats, an installation with standard/texture/model entries, index and index2, and an expansion, a dat file whose stored blocks have tens of kilobytes of file behind them. Corruptions: every truncation point; every offset x width {1,2,4,8} x value {0, 1, 0x7F.., 0x80.., 0xFF.., +1, -1} x byte order; random mutation compositions; random blobs behind intact magic; well-formed assets of about 1 MiB made of as many small records as fit (index / index2 with 60 000 entries, a sheet page with 50 000 rows, a header with 60 000 columns, a terrain with 200 000 plates, an effect file of 80 000 blocks, a model with 1 500 meshes and 120 shapes, a shader package with 12 000 nodes) against the CPU and memory budgets; texture headers generated from the grammar (every format, each dimension from boundary values or free, any attribute, payload absent / short / present); shader packages queried with the selectors of the intact package's nodes and aliases (every package has an alias of its last node); cyclic links (every deformer link / item link to every node, dictionary inner nodes and entry fields); archive fault sequences before opening and between open and read (truncation at every structure boundary +-1, every header field corrupted, files removed / replaced by directories / emptied, stray and oddly named files and directories incl. non-UTF-8 names and names made of multi-byte characters, missing version files, expansion removed while open); leak probes (damaged deflate streams and wrong declared sizes in standard, texture and model entries, 120 repetitions each, growth measured over the last 90). Oracle: worker outcome must be value or ordinary failure -- no panic, abort, stack overflow, more than 10 s CPU, live heap above max(64 MiB, 256 x input), or per-call heap growth. Non-trivial: input differs from the seed, is non-empty and keeps the seed's magic; distinct by hash of (entry, arguments).",
+        rule: "cases = (entry point, valid seed asset or archive, corruption) executed in an isolated worker process. Entry points: from_existing of model, material, shader package (+find_node for every listed and some absent selectors), texture, EXH, EXD (+read_row for every indexed id, page ids and absent ids; header and page corrupted separately), skeleton, deformer (+get_deform_matrices for all ordered pairs of body ids), scaling table, terrain, staining template, dictionary, layer group (empty, fixture, and one with instance objects), effect, uld/sgb/scd/hwc/iwc/tmb/skp/schd/phyb/pap headers, SqPack database; SqPackIndex::from_existing+exists/find_entry, SqPackData::read_from_offset at entry and stray offsets, GameData::from_existing/exists/find_offset/extract on a synthetic installation. Seeds: output of the C05/C06/C13/C14/C16 generators for fixed internal seeds, the repository's sample model and layer group, hand-built files for the remaining formats, an installation with standard/texture/model entries, index and index2, and an expansion, a dat file whose stored blocks have tens of kilobytes of file behind them, a dat file whose entries' tables promise gigabytes without the data. Corruptions: every truncation point; every offset x width {1,2,4,8} x value {0, 1, 0x7F.., 0x80.., 0xFF.., +1, -1} x byte order; random mutation compositions; random blobs behind intact magic; well-formed assets of about 1 MiB made of as many small records as fit (index / index2 with 60 000 entries, a sheet page with 50 000 rows, a header with 60 000 columns, a terrain with 200 000 plates, an effect file of 80 000 blocks, a model with 1 500 meshes and 120 shapes, a shader package with 12 000 nodes) against the CPU and memory budgets; texture headers generated from the grammar (every format, each dimension from boundary values or free, any attribute, payload absent / short / present); shader packages queried with the selectors of the intact package's nodes and aliases (every package has an alias of its last node); cyclic links (every deformer link / item link to every node, dictionary inner nodes and entry fields); archive fault sequences before opening and between open and read (truncation at every structure boundary +-1, every header field corrupted, files removed / replaced by directories / emptied, stray and oddly named files and directories incl. non-UTF-8 names and names made of multi-byte characters, missing version files, expansion removed while open); leak probes (damaged deflate streams and wrong declared sizes in standard, texture and model entries, 120 repetitions each, growth measured over the last 90). Oracle: worker outcome must be value or ordinary failure -- no panic, abort, stack overflow, more than 10 s CPU, live heap above max(64 MiB, 256 x input), or per-call heap growth. Non-trivial: input differs from the seed, is non-empty and keeps the seed's magic; distinct by hash of (entry, arguments).",
         assumptions: &["files a case writes are capped at 16 MiB by RLIMIT_FSIZE", "wall-clock time is not judged; the CPU budget is 10 s per case", "stack overflow is observed on the worker's 8 MiB main-thread stack"],
         pre: None,
         parts: vec![
